@@ -252,6 +252,29 @@ impl Sim {
                 self.h.insert(name.to_string(), h);
                 s
             }
+            ["recreate", name] => {
+                // create a core again on the SAME storage with `overwrite = true`: whatever the stores hold is discarded
+                let Some(h) = self.h.get_mut(*name) else { return "nocore".into() };
+                let Some(seed) = h.seed else { return "nocore".into() };
+                h.core = None;
+                Self::snapshot(h);
+                h.world.lock().unwrap().overwrite = true;
+                h.world.lock().unwrap().journal.clear();
+                let sk = SigningKey::from_bytes(&seed);
+                let kp = PartialKeypair { public: sk.verifying_key(), secret: Some(sk) };
+                let r = Self::open_core(&h.world, Some(kp));
+                let (core, out) = match r { Ok(c) => (Some(c), "ok".to_string()), Err(e) => (None, e.chars().take(3).collect()) };
+                let failed = core.is_none();
+                h.core = core;
+                h.oracle = Oracle { writable: true, exists: true, ..Default::default() };
+                h.subs.clear(); h.announced.clear(); h.became.clear(); h.unflushed_entries = 0;
+                let j = Self::take_journal(h);
+                h.flushed_oracle = h.oracle.clone();
+                h.last_journal = j.clone();
+                if failed { self.fail("recreate-failed", format!("creating a core with overwrite on existing storage failed: {out}")); }
+                self.bump("op_recreate");
+                format!("{out} j={}", jfmt(&j))
+            }
             ["newr", name, writer, ..] => {
                 let pk = self.h[*writer].core.as_ref().map(|c| c.key_pair().public);
                 let Some(pk) = pk else { return "nocore".into() };
